@@ -6,14 +6,14 @@ from props import dwtfam
 
 ID = 'C10'
 PROPS_MODULE = 'Props.C10'
-THEOREMS = ['C10_level_nonper_row', 'C10_level_per_row', 'C10_level_2d', 'C10_level_2d_per', 'C10_level_per_row_code', 'C10_per_short_refuted']
+THEOREMS = ['C10_level_nonper_row', 'C10_level_per_row', 'C10_level_2d', 'C10_level_2d_per', 'C10_multilevel_1d', 'C10_multilevel_1d_per', 'C10_multilevel_2d', 'C10_multilevel_2d_per', 'C10_level_per_row_code', 'C10_per_short_refuted']
 VO = ['theories/Props/C10.vo', 'theories/Run/RunDwt.vo', 'theories/Run/RunSpec.vo']
 RULE = ('correspondence A: full operator matrices of sfb1d (both dims, 5 modes, every n in the grid incl. outputs that would be empty), '
         'SFB1D/SFB2D, DWT1DInverse/DWTInverse on seeded integer pyramids incl. every None mask; correspondence B: syn / syn_per vs pywt.idwt; '
         'oracle: inverse modules vs pywt.waverec/waverec2 on random pyramids of forward-compatible shapes (not transforms of a signal), '
         'None vs explicit zeros on the extent. distinct by configuration.')
 TRUSTED = TRUSTED_COMMON + ['PyWavelets idwt represented by Spec/Line.v syn / syn_per (tied by correspondence B)']
-ASSUMES = ['theorems cover one level of the row pass; column pass, trim rule and level loop by correspondence + oracle']
+ASSUMES = ['theorems cover the whole model for ANY pyramid whose shapes chain: row and column pass, trim rule, None -> zeros of the running lowpass size, level loop for every J (C10_multilevel_*), all five modes (periodization under the guard)']
 
 
 def corr_jobs(tier, rng):
